@@ -41,6 +41,7 @@ R2_track = Rule("R2", "#[track_caller]", "", "attribute", count="*")
 UNITS = {
     "tree": {
         "name": "tree",
+        "self_type": "WeightedTreeIndex",
         "template": os.path.join(HERE, "specs", "tree.vspec.rs"),
         "types": ["u8", "u16", "u32", "u64", "u128", "usize", "i8", "i16", "i32", "i64", "i128", "isize"],
         "quick_types": ["u64", "i32"],
